@@ -125,7 +125,11 @@ func (g *c04Gen) c04Create(store, id string, force map[string]string) hOp {
 	}
 	g.forced = nil
 	if _, exists := g.ents[root][id]; !exists && valid {
-		g.ents[root][id] = op.F
+		if g.childFk {
+			g.c04cBelieveCreate(&op)
+		} else {
+			g.ents[root][id] = op.F
+		}
 	}
 	return op
 }
@@ -155,7 +159,7 @@ func (g *c04Gen) c04Ensure(store, except string, depth int) []hOp {
 				continue
 			}
 			troot := g.root(d.Target)
-			if len(g.aliveIds(troot)) > 0 {
+			if len(g.aliveIn(d.Target)) > 0 {
 				break
 			}
 			if id := g.c04FreshId(troot); id != "" {
@@ -174,7 +178,7 @@ func (g *c04Gen) c04Ensure(store, except string, depth int) []hOp {
 func (g *c04Gen) c04Reference(d *wiringDecl, t string, avoid ...string) []hOp {
 	sroot, troot := g.root(d.Store), g.root(d.Target)
 	var cands []string
-	for _, x := range g.aliveIds(sroot) {
+	for _, x := range g.aliveIn(d.Store) {
 		if !(sroot == troot && x == t) && !containsStr(avoid, x) {
 			cands = append(cands, x)
 		}
@@ -213,7 +217,9 @@ func (g *c04Gen) c04Repoint(d *wiringDecl, x string, v *string) hOp {
 	op := hOp{Kind: "UP", Store: d.Store, Id: x, F: map[string]*string{}, S: map[string][]string{}}
 	if e, ok := g.ents[sroot][x]; ok {
 		for f, fv := range e {
-			op.F[f] = fv
+			if f != c04ViaKey {
+				op.F[f] = fv
+			}
 		}
 	}
 	op.F[d.Field] = v
@@ -236,13 +242,13 @@ func (g *c04Gen) c04Release(troot, t string) []hOp {
 			continue
 		}
 		sroot := g.root(d.Store)
-		for _, x := range g.aliveIds(sroot) {
+		for _, x := range g.aliveIn(d.Store) {
 			e, ok := g.ents[sroot][x]
 			if !ok || e[d.Field] == nil || *e[d.Field] != t || (sroot == troot && x == t) {
 				continue
 			}
 			var others []string
-			for _, o := range g.aliveIds(troot) {
+			for _, o := range g.aliveIn(d.Target) {
 				if o != t && !(sroot == troot && o == x) {
 					others = append(others, o)
 				}
@@ -277,7 +283,7 @@ func (g *c04Gen) reuseTxs() []hTx {
 
 	// 1. the target: an existing entity or a new one
 	t := ""
-	if alive := g.aliveIds(troot); len(alive) > 0 && g.r.chance(45) {
+	if alive := g.aliveIn(d.Target); len(alive) > 0 && g.r.chance(45) {
 		t = alive[g.r.intn(len(alive))]
 	} else if t = g.c04FreshId(troot); t != "" {
 		b.emit(g.c04Ensure(d.Target, "", 0)...)
@@ -311,7 +317,7 @@ func (g *c04Gen) reuseTxs() []hTx {
 		d2 := d
 		if g.r.chance(25) { // through another edge to the same target store, when there is one
 			for _, o := range ds {
-				if g.root(o.Target) == troot && g.r.chance(50) {
+				if g.root(o.Target) == troot && (!g.childFk || o.Target == d.Target) && g.r.chance(50) {
 					d2 = o
 				}
 			}
